@@ -1,21 +1,30 @@
 (* C13 - wire encoding: every emitted message is one-line valid JSON-RPC that parses back.
-   Property theorems only; the lemmas are in json/JsonProofs.v and wire/WireProofs.v.
+   Property theorems only; the lemmas are in json/JsonProofs.v, json/JsonPrint.v, wire/WireProofs.v
+   and wire/WireSpecs.v.
 
    Domain (DESIGN.md section 7, "not findings"): method names valid UTF-8; ids JSON string / number
    literals, valid UTF-8; params / results = what json.Marshal returns for a marshalable value (a
    compact JSON text, valid UTF-8); error data valid JSON whose compaction is valid UTF-8; error
    messages are ARBITRARY byte strings.
 
-   _partial theorems: c13_parse_back_partial and c13_independent_partial are proved at the wire level
-   over explicit JSON-level round-trip specifications of the model's parser on printed object texts
-   (WireProofs.spec_members, spec_string, spec_error_codec, spec_obj_tight,
-   spec_raw_value; spec_lit_tight is proved: "parse o print" facts about coq/json/Json.v, instances closed by vm_compute in
-   wire/WireExamples.v and exercised on every run by the differential harness, which feeds every
-   captured encoding back to the real ParseRequests and to the model).  Full statement: the same
-   conclusions without those five hypotheses, and for batches (enc_msgs true ms) as well; missing:
-   the parse-of-print / prefix-extension / unquote-of-escape lemmas for Json.pval. *)
+   Nothing is _partial any more.  c13_parse_back, c13_independent and c13_parse_back_batch are
+   unconditional: the JSON-level round-trip specifications they used to assume (spec_members,
+   spec_string, spec_error_codec, spec_obj_tight, spec_raw_value, and spec_elements / spec_depth_mono)
+   are proved for all inputs in wire/WireSpecs.v from the parse-of-print lemmas of json/JsonPrint.v
+   (text of a parsed value, fuel sufficiency, depth monotonicity, prefix extension, pstr/unquote of
+   the escaper).
+
+   The round-trip domain msg_rt_at d (WireProofs.v; msg_rt = msg_rt_at 0) is the precise one:
+   valid UTF-8 method, string/number id, params and result valid JSON values at the depth where
+   they sit, and, for an error that is emitted, an int32 code and data whose compaction is valid at
+   ITS depth.  Both conditions on the error are necessary (c13_error_domain_needed_code, c13_nesting_limit_counts_envelope_error_data): the first
+   statement of spec_error_codec had neither and is refuted (WireSpecs.spec_error_codec_unrestricted_refuted),
+   so the former _partial theorems were vacuous.  The depth conditions are encoding/json's nesting
+   limit of 10000, which counts the envelope: a value nested 9999 deep is marshalled and then rejected
+   inside the message that carries it (c13_nesting_limit_counts_envelope_error_data, c13_nesting_limit_counts_envelope_batch); hence the batch theorem
+   asks for msg_rt_at 1 (members sit one container deep). *)
 From Coq Require Import List NArith ZArith Bool.
-From JV Require Import Bytes Json JsonProofs Msg Wire WireProofs.
+From JV Require Import Bytes Json JsonProofs JsonPrint Msg Wire WireProofs WireSpecs.
 Import ListNotations.
 Local Open Scope N_scope.
 
@@ -44,21 +53,59 @@ Theorem c13_escape_any_string : forall s : bytes,
 Proof. exact (fun s => conj (escape_string_no_ctl s) (escape_string_valid s)). Qed.
 Print Assumptions c13_escape_any_string.
 
-Theorem c13_parse_back_partial :
-  spec_members -> spec_string -> spec_error_codec -> spec_obj_tight -> spec_raw_value ->
-  forall (m : jmsg) (b : bytes), msg_rt m -> enc_msg m = Some b ->
-    parse_member b = canon m /\ parse_msgs b = InMsgs false [canon m] /\
-    parse_requests b = Parsed [to_parsed (canon m)].
-Proof. exact parse_back_partial. Qed.
-Print Assumptions c13_parse_back_partial.
+Theorem c13_parse_back : forall (m : jmsg) (b : bytes), msg_rt m -> enc_msg m = Some b ->
+  parse_member b = canon m /\ parse_msgs b = InMsgs false [canon m] /\
+  parse_requests b = Parsed [to_parsed (canon m)].
+Proof. exact parse_back. Qed.
+Print Assumptions c13_parse_back.
 
-Theorem c13_independent_partial :
-  spec_members -> spec_string -> spec_error_codec ->
-  forall (m : jmsg) (b : bytes), msg_rt m -> enc_msg m = Some b ->
-    exists eb, raw_members b = Some (msg_fields m eb) /\ lookup k_jsonrpc (msg_fields m eb) = Some v20 /\
-               unmarshal_string v20 = Some (Some version).
-Proof. exact independent_partial. Qed.
-Print Assumptions c13_independent_partial.
+Theorem c13_independent : forall (m : jmsg) (b : bytes), msg_rt m -> enc_msg m = Some b ->
+  exists eb, raw_members b = Some (msg_fields m eb) /\ lookup k_jsonrpc (msg_fields m eb) = Some v20 /\
+             unmarshal_string v20 = Some (Some version).
+Proof. exact independent. Qed.
+Print Assumptions c13_independent.
+
+Theorem c13_parse_back_batch : forall (ms : list jmsg) (b : bytes),
+  Forall (msg_rt_at 1) ms -> enc_msgs true ms = Some b ->
+  parse_msgs b = InMsgs true (map canon ms) /\
+  parse_requests b = Parsed (map (fun m => to_parsed (canon m)) ms).
+Proof. exact parse_back_batch. Qed.
+Print Assumptions c13_parse_back_batch.
+
+Theorem c13_string_round_trip : forall s : bytes, valid_utf8 s = true ->
+  unmarshal_string (escape_string s) = Some (Some s) /\ forall d, tight_at d (escape_string s) = true.
+Proof. exact string_round_trip. Qed.
+Print Assumptions c13_string_round_trip.
+
+Theorem c13_error_round_trip : forall (d : N) (e : werr) (b : bytes),
+  N.succ d <= max_depth -> err_rt_at d e -> marshal_error e = Some b ->
+  tight_at d b = true /\
+  unmarshal_error b = (Some {| we_code := we_code e;
+                               we_msg := if valid_utf8 (we_msg e) then we_msg e else snd (true, match unmarshal_string (escape_string (we_msg e)) with Some (Some x) => x | _ => [] end);
+                               we_data := match compact (we_data e) with Some q => if beq (we_data e) [] then [] else q | None => [] end |}, true).
+Proof. exact error_codec_spec. Qed.
+Print Assumptions c13_error_round_trip.
+
+Theorem c13_error_domain_needed_code :
+  exists m b, msg_rt_no_error m /\ enc_msg m = Some b /\ parse_member b <> canon m.
+Proof. exact parse_back_refuted_without_rt_error. Qed.
+Print Assumptions c13_error_domain_needed_code.
+
+Theorem c13_nesting_limit_counts_envelope_error_data :
+  msg_rt_no_error (deep_rsp 9999) /\ int32_ok (we_code (deep_err 9999)) /\
+  compact (deep 9999) = Some (deep 9999) /\
+  (exists b, enc_msg (deep_rsp 9999) = Some b /\ parse_msgs b = InBad /\ j_err (parse_member b) <> j_err (canon (deep_rsp 9999))) /\
+  msg_rt (deep_rsp 9998).
+Proof. exact parse_back_refuted_deep_error_data. Qed.
+Print Assumptions c13_nesting_limit_counts_envelope_error_data.
+
+Theorem c13_nesting_limit_counts_envelope_batch :
+  msg_rt (deep_req 9999) /\
+  (exists b, enc_msg (deep_req 9999) = Some b /\ parse_msgs b = InMsgs false [canon (deep_req 9999)]) /\
+  (exists b, enc_msgs true [deep_req 9999] = Some b /\ parse_msgs b = InBad) /\
+  msg_rt_at 1 (deep_req 9998).
+Proof. exact parse_back_batch_refuted_at_depth_0. Qed.
+Print Assumptions c13_nesting_limit_counts_envelope_batch.
 
 Theorem c13_parse_requests_total : forall s : bytes,
   (parse s = None -> parse_requests s = TopError e_invalid_request) /\
